@@ -192,6 +192,10 @@ func replayOtherV(v *Violation) *Violation {
 		return replayE1(v)
 	case "E1-C07":
 		return replayC07(v)
+	case "E1-C11":
+		return replayC11(v)
+	case "E1-C12":
+		return replayC12(v)
 	}
 	return nil
 }
@@ -214,6 +218,8 @@ func runE1(t *testing.T, focus string) {
 	rapid.Check(t, func(rt *rapid.T) { runE1Case(rt, f) })
 }
 
+func TestC11(t *testing.T)   { rapid.Check(t, runC11Case) }
+func TestC12(t *testing.T)   { rapid.Check(t, runC12Case) }
 func TestC07E1(t *testing.T) { rapid.Check(t, runC07Case) }
 func TestC01(t *testing.T)   { runE1(t, "C01") }
 func TestC09(t *testing.T)   { runE1(t, "C09") }
